@@ -1,2 +1,214 @@
-(* C04 - proofs (in progress) *)
-From HV Require Import Prelude Tracts C04_Model C04_Check.
+(* C04 - proofs, part 3: transform_haps.
+     transform_haps_records_lemma : a successful run outputs exactly the selected
+        haplotypes all of whose variants were loaded, in .hap order, with their
+        (id, chrom, start); the samples are the requested ones in input order; and
+        the matrix is the cell-by-cell specification on the loaded genotypes with
+        the ancestry matrix of the chosen source.
+     ancestry_source_irrelevant_lemma : POP fields and a .bp file describing the
+        same ancestry give the same output. *)
+From HV Require Import Prelude Tracts C04_Model C04_Check C04_Proofs C04_ProofsSet.
+
+(* ---- the pieces of transform_haps, named ------------------------------------ *)
+
+Definition t_sel (t : tinput) : list hap :=
+  filter (hap_selected (region_for_haps t) (t_ids t)) (t_haps t).
+Definition t_want (t : tinput) : list Z :=
+  dedupZ [] (flat_map (fun h => map hv_id (h_vars h)) (real_haps (t_sel t))).
+Definition t_vm (t : tinput) : list bool := map (var_selected (t_region t) (t_want t)) (t_vars t).
+Definition t_sm (t : tinput) : list bool :=
+  map (fun s => match t_samp t with None => true | Some l => memZ s l end) (t_samples t).
+Definition t_loaded (t : tinput) : list gvar := keep (t_vm t) (t_vars t).
+Definition t_out_samples (t : tinput) : list Z := keep (t_sm t) (t_samples t).
+Definition t_loaded_data (t : tinput) : list sample_rows :=
+  map (keep_rows (t_vm t)) (keep (t_sm t) (t_data t)).
+(* the haplotypes that are written: selected H lines whose variants were all loaded *)
+Definition t_out_haps (t : tinput) : list hap :=
+  filter (transformable (map gv_id (t_loaded t))) (real_haps (t_sel t)).
+Definition t_geno (t : tinput) (anc : list sample_rows) : geno :=
+  mkg (t_out_samples t) (t_loaded t) (t_loaded_data t) anc (map (fun l => (l, l)) (labels_seen anc)).
+
+Definition transform_haps_alt (t : tinput) : res tout :=
+  match t_sel t with
+  | [] => Err E_Value
+  | _ =>
+    if has_dup (map gv_id (t_loaded t)) then Err E_Value else
+    let missing := (length (t_loaded t) <? length (t_want t))%nat in
+    let sel' := if missing then t_out_haps t else t_sel t in
+    match ancestry_matrix false (t_anc t) (t_sm t) (t_vm t) (t_out_samples t) (t_loaded t) with
+    | Err k => Err k
+    | Ok anc =>
+      match set_tr (uses_anc t) sel' (t_geno t anc) with
+      | Err k => Err k
+      | Ok (recs, M) => Ok (recs, t_out_samples t, M)
+      end
+    end
+  end.
+
+Lemma transform_haps_alt_eq t : transform_haps t = transform_haps_alt t.
+Proof.
+  unfold transform_haps, transform_haps_gen, transform_haps_alt.
+  cbv zeta. fold (t_sel t). destruct (t_sel t) as [|h0 sel0] eqn:Es; [reflexivity|]. rewrite <- Es.
+  fold (t_want t). fold (t_vm t). fold (t_sm t). fold (t_loaded t). fold (t_out_samples t).
+  fold (t_loaded_data t).
+  destruct (has_dup (map gv_id (t_loaded t))); [reflexivity|].
+  rewrite andb_false_r. cbn [andb]. fold (t_out_haps t).
+  destruct (ancestry_matrix false (t_anc t) (t_sm t) (t_vm t) (t_out_samples t) (t_loaded t)) as [anc|k];
+    [|reflexivity].
+  fold (t_geno t anc). unfold set_tr, uses_anc, haps_transform_anc.
+  destruct (t_anc t); reflexivity.
+Qed.
+
+(* ---- list facts ----------------------------------------------------------------- *)
+
+Lemma keep_map_filter {A} (f : A -> bool) l : keep (map f l) l = filter f l.
+Proof. induction l as [|x r IH]; cbn; [reflexivity|]. rewrite IH. reflexivity. Qed.
+
+Lemma memZ_In x l : memZ x l = true <-> In x l.
+Proof.
+  unfold memZ. rewrite existsb_exists. split.
+  - intros [y [Hin Hy]]. apply Z.eqb_eq in Hy. subst. exact Hin.
+  - intros Hin. exists x. split; [exact Hin|apply Z.eqb_refl].
+Qed.
+
+Lemma has_dup_NoDup l : has_dup l = false -> NoDup l.
+Proof.
+  induction l as [|x r IH]; cbn; intros H; [constructor|].
+  apply orb_false_iff in H. destruct H as [H1 H2]. constructor.
+  - intros Hin. apply memZ_In in Hin. congruence.
+  - apply IH. exact H2.
+Qed.
+
+Lemma dedupZ_In l : forall seen k, In k (dedupZ seen l) <-> In k l /\ ~ In k seen.
+Proof.
+  induction l as [|x r IH]; intros seen k; cbn.
+  - tauto.
+  - destruct (memZ x seen) eqn:E.
+    + apply memZ_In in E. rewrite IH. split.
+      * intros [H1 H2]. auto.
+      * intros [[->|H1] H2]; [contradiction|auto].
+    + assert (Hx : ~ In x seen).
+      { intros Hc. apply memZ_In in Hc. congruence. }
+      cbn. rewrite IH. cbn. split.
+      * intros [->|[H1 H2]]; [auto|]. split; [auto|]. intros Hc. apply H2. auto.
+      * intros [[->|H1] H2]; [auto|].
+        destruct (Z.eq_dec x k) as [->|Hne]; [auto|].
+        right. split; [exact H1|]. intros [Hc|Hc]; [contradiction|contradiction].
+Qed.
+
+Lemma dedupZ_NoDup l : forall seen, NoDup (dedupZ seen l).
+Proof.
+  induction l as [|x r IH]; intros seen; cbn; [constructor|].
+  destruct (memZ x seen); [apply IH|]. constructor; [|apply IH].
+  intros Hin. apply dedupZ_In in Hin. destruct Hin as [_ Hn]. apply Hn. left. reflexivity.
+Qed.
+
+Lemma filter_all_true {A} (g : A -> bool) l : (forall x, In x l -> g x = true) -> filter g l = l.
+Proof.
+  induction l as [|x r IH]; cbn; intros H; [reflexivity|].
+  rewrite (H x (or_introl eq_refl)). f_equal. apply IH. intros y Hy. apply H. right. exact Hy.
+Qed.
+
+Lemma real_haps_idem_filter f l : real_haps (filter f (real_haps l)) = filter f (real_haps l).
+Proof.
+  unfold real_haps. apply filter_all_true. intros x Hx.
+  apply filter_In in Hx. destruct Hx as [Hx _]. apply filter_In in Hx. destruct Hx as [_ Hx]. exact Hx.
+Qed.
+
+(* ---- when no wanted variant is missing, every selected haplotype is transformable ---- *)
+
+Lemma loaded_ids_wanted t : incl (map gv_id (t_loaded t)) (t_want t).
+Proof.
+  intros id Hin. apply in_map_iff in Hin. destruct Hin as [v [<- Hv]].
+  unfold t_loaded, t_vm in Hv. rewrite keep_map_filter in Hv. apply filter_In in Hv.
+  destruct Hv as [_ Hs]. unfold var_selected in Hs. apply andb_true_iff in Hs. destruct Hs as [_ Hs].
+  apply memZ_In. exact Hs.
+Qed.
+
+Lemma none_missing_all_transformable t :
+  has_dup (map gv_id (t_loaded t)) = false ->
+  (length (t_loaded t) <? length (t_want t))%nat = false ->
+  t_out_haps t = real_haps (t_sel t).
+Proof.
+  intros Hd Hlen. apply Nat.ltb_ge in Hlen.
+  assert (Hincl : incl (t_want t) (map gv_id (t_loaded t))).
+  { apply NoDup_length_incl.
+    - apply has_dup_NoDup. exact Hd.
+    - rewrite map_length. exact Hlen.
+    - apply loaded_ids_wanted. }
+  unfold t_out_haps. apply filter_all_true. intros h Hh. unfold transformable.
+  apply forallb_forall. intros v Hv. apply memZ_In. apply Hincl.
+  unfold t_want. apply dedupZ_In. split; [|intros []].
+  apply in_flat_map. exists h. split; [exact Hh|]. apply in_map. exact Hv.
+Qed.
+
+(* ---- the theorem -------------------------------------------------------------------- *)
+
+Theorem transform_haps_records_lemma t recs samples M :
+  transform_haps t = Ok (recs, samples, M) ->
+  recs = recs_of (t_out_haps t)
+  /\ samples = t_out_samples t
+  /\ exists anc,
+       ancestry_matrix false (t_anc t) (t_sm t) (t_vm t) (t_out_samples t) (t_loaded t) = Ok anc
+       /\ M = spec_mat (t_geno t anc) (uses_anc t) (t_out_haps t)
+       /\ forallb (hap_okb (t_geno t anc)) (t_out_haps t) = true.
+Proof.
+  rewrite transform_haps_alt_eq. unfold transform_haps_alt.
+  destruct (t_sel t) as [|h0 sel0] eqn:Es; [discriminate|]. rewrite <- Es. clear h0 sel0 Es.
+  destruct (has_dup (map gv_id (t_loaded t))) eqn:Ed; [discriminate|]. cbv zeta.
+  destruct (ancestry_matrix false (t_anc t) (t_sm t) (t_vm t) (t_out_samples t) (t_loaded t)) as [anc|k] eqn:Ea;
+    [|discriminate].
+  set (sel' := if (length (t_loaded t) <? length (t_want t))%nat then t_out_haps t else t_sel t).
+  assert (Hreal : real_haps sel' = t_out_haps t).
+  { unfold sel'. destruct (length (t_loaded t) <? length (t_want t))%nat eqn:El.
+    - unfold t_out_haps. apply real_haps_idem_filter.
+    - symmetry. apply none_missing_all_transformable; assumption. }
+  destruct (haps_transform_closed_gen (t_geno t anc) (uses_anc t) sel' Ed) as [C1 C2].
+  rewrite Hreal in C1, C2.
+  destruct (forallb (hap_okb (t_geno t anc)) (t_out_haps t)) eqn:Eok.
+  - rewrite (C1 eq_refl). intros H. inversion H; subst.
+    split; [reflexivity|]. split; [reflexivity|]. exists anc. auto.
+  - destruct (C2 eq_refl) as [k [Hk _]]. rewrite Hk. discriminate.
+Qed.
+
+(* ---- the ancestry source is irrelevant ------------------------------------------------- *)
+
+(* transform_haps uses the ancestry source only through the label matrix of the
+   loaded samples x loaded variants: two inputs that differ only in the source and
+   whose sources yield the same matrix give the same result (in particular POP
+   fields and a .bp file that describe the same tracts) *)
+Definition with_anc (t : tinput) (a : anc_source) : tinput :=
+  mkt (t_samples t) (t_vars t) (t_data t) (t_haps t) (t_region t) (t_ids t) (t_samp t) a.
+
+Theorem ancestry_source_irrelevant_lemma t a1 a2 :
+  a1 <> NoAnc -> a2 <> NoAnc ->
+  ancestry_matrix false a1 (t_sm t) (t_vm t) (t_out_samples t) (t_loaded t)
+  = ancestry_matrix false a2 (t_sm t) (t_vm t) (t_out_samples t) (t_loaded t) ->
+  transform_haps (with_anc t a1) = transform_haps (with_anc t a2).
+Proof.
+  intros H1 H2 Heq. rewrite !transform_haps_alt_eq. unfold transform_haps_alt.
+  change (t_sel (with_anc t a1)) with (t_sel t). change (t_sel (with_anc t a2)) with (t_sel t).
+  change (t_loaded (with_anc t a1)) with (t_loaded t). change (t_loaded (with_anc t a2)) with (t_loaded t).
+  change (t_want (with_anc t a1)) with (t_want t). change (t_want (with_anc t a2)) with (t_want t).
+  change (t_out_haps (with_anc t a1)) with (t_out_haps t). change (t_out_haps (with_anc t a2)) with (t_out_haps t).
+  change (t_sm (with_anc t a1)) with (t_sm t). change (t_sm (with_anc t a2)) with (t_sm t).
+  change (t_vm (with_anc t a1)) with (t_vm t). change (t_vm (with_anc t a2)) with (t_vm t).
+  change (t_out_samples (with_anc t a1)) with (t_out_samples t).
+  change (t_out_samples (with_anc t a2)) with (t_out_samples t).
+  change (t_anc (with_anc t a1)) with a1. change (t_anc (with_anc t a2)) with a2.
+  rewrite Heq.
+  assert (U : uses_anc (with_anc t a1) = uses_anc (with_anc t a2)).
+  { unfold uses_anc. cbn. destruct a1, a2; try reflexivity; contradiction. }
+  rewrite U.
+  destruct (t_sel t); [reflexivity|].
+  destruct (has_dup (map gv_id (t_loaded t))); [reflexivity|]. cbv zeta.
+  destruct (ancestry_matrix false a2 (t_sm t) (t_vm t) (t_out_samples t) (t_loaded t)); reflexivity.
+Qed.
+
+(* the matrix written into POP fields by a simulation is the one the .bp lookup
+   yields: with [pop_of_bp] as the POP matrix both sources coincide *)
+Definition pop_of_bp (bp : list (Z * (list seg * list seg))) (samples : list Z) (vs : list gvar)
+  : res (list sample_rows) :=
+  match all_some (map (fun s => find_bp s bp) samples) with
+  | None => Err E_Key
+  | Some ts => sequence (map (bp_rows vs) ts)
+  end.
